@@ -349,6 +349,7 @@ func checkC12(r *Run) {
 	r.OkTrivial("panic-reach", fmt.Sprintf("client scope: %d module functions reachable (CHA), %d explicit panic sites examined", nReach, len(sites)), token.NoPos)
 	r.Floor("panic-reach", nReach, 30, "functions reachable from the client entry points")
 
+	checkFreshFrame(r, reader, "fresh-frame")
 	// (6) inbound path obligations
 	n := 0
 	for _, k := range []string{"p9p:readmsg", "p9p:(*channel).ReadFcall", "p9p:(*client).Read", "p9p:(*client).Write"} {
